@@ -153,6 +153,35 @@ def immutability_records(rng, n):
                 for argkind, arg in (("dict", dict(P)), ("PUBO/PUSO", (qv.PUSO if spin else qv.PUBO)(P))):
                     H = (qv.PCSO if spin else qv.PCBO)()
                     call("add_constraint_%s_zero" % rel, argkind, lambda a, HH=H, r=rel: getattr(HH, "add_constraint_%s_zero" % r)(a), arg)
+        # degenerate arguments: a constant-only or empty objective (with a name and, for the constrained classes, a constraint
+        # recorded at weight zero) - the early-return paths of solvers and converters must leave the argument alone too
+        for d0 in ({(): rng.choice([-3, 2, 5])}, {}):
+            for kind, cls, spin in [("dict", dict, False), ("dict", dict, True), ("QUBO", qv.QUBO, False), ("PUBO", qv.PUBO, False),
+                                    ("PCBO", qv.PCBO, False), ("QUSO", qv.QUSO, True), ("PUSO", qv.PUSO, True), ("PCSO", qv.PCSO, True),
+                                    ("QUBOMatrix", utils.QUBOMatrix, False), ("PUBOMatrix", utils.PUBOMatrix, False),
+                                    ("QUSOMatrix", utils.QUSOMatrix, True), ("PUSOMatrix", utils.PUSOMatrix, True)]:
+                m = cls(d0)
+                if kind in ("PCBO", "PCSO"):
+                    m.add_constraint_eq_zero({(labs[0],): 1, (): -1 if spin else 0}, lam=0)
+                    m.name = "const-%d" % i
+                akind = kind + ("/constant" if d0 else "/empty")
+                pre = "puso" if spin else "pubo"
+                for alls in (False, True):
+                    call("solve_%s_bruteforce" % pre, akind, lambda mm, a=alls, f=getattr(utils, "solve_%s_bruteforce" % pre): f(mm, a), m)
+                    if kind in ("dict", "QUBO", "QUSO", "QUBOMatrix", "QUSOMatrix"):
+                        q = "quso" if spin else "qubo"
+                        call("solve_%s_bruteforce" % q, akind, lambda mm, a=alls, f=getattr(utils, "solve_%s_bruteforce" % q): f(mm, a), m)
+                    if kind != "dict":
+                        call(kind + ".solve_bruteforce", akind, lambda mm, a=alls: mm.solve_bruteforce(a), m)
+                call("%s_value" % pre, akind, lambda mm, f=getattr(utils, "%s_value" % pre): f({}, mm), m)
+                call("approximate_%s_extrema" % pre, akind, getattr(utils, "approximate_%s_extrema" % pre), m)
+                call("puso_to_pubo" if spin else "pubo_to_puso", akind, utils.puso_to_pubo if spin else utils.pubo_to_puso, m)
+                if kind != "dict":
+                    call(kind + ".copy", akind, lambda mm: mm.copy(), m)
+                if kind != "dict" and not kind.endswith("Matrix"):
+                    for meth in ("to_qubo", "to_quso", "to_pubo", "to_puso", "to_enumerated"):
+                        call(kind + "." + meth, akind, lambda mm, me=meth: getattr(mm, me)(), m)
+                    call(kind + ".subs", akind, lambda mm: mm.subs({}), m)
         for g in ("AND", "OR", "XOR", "NAND", "NOR", "XNOR"):
             e = qv.PUBO({(labs[0], labs[1]): 1})
             H = qv.PCBO()
